@@ -1022,7 +1022,11 @@ mod imp {
 
   /// Root-cause attribution for an exact-regime miss of a single-clause vector-only request:
   /// which parameter has to be raised for the miss to disappear, cross-checked with the structure of the case.
-  fn classify_exact_miss(reader: &IndexReader, model: &Model, vfs: &[VF], req: &Req, after_compact: bool) -> (String, Value) {
+  /// `beam_evidence`: some eligible document that is absent from the hits could not have been left out of a
+  /// correct per-segment top-k fetch (fewer than `search_k` vectors of its segment score at least as well, ties
+  /// included). Without it the miss is explained by ineligible (deleted / filtered) vectors taking fetch slots;
+  /// raising ef_search may then still "fix" it by reshuffling equal-scored vectors, which is not the beam defect.
+  fn classify_exact_miss(reader: &IndexReader, model: &Model, vfs: &[VF], req: &Req, after_compact: bool, hits: &[HitV]) -> (String, Value) {
     let c = &req.clauses[0];
     let counts = model.seg_counts(c.f);
     // effective engine parameters (reader.rs build_vector_plan) — used for labelling only, never for the verdict
@@ -1041,6 +1045,19 @@ mod imp {
         topk_postfilter = true;
       }
     }
+    let hit_vers: HashSet<&str> = hits.iter().filter_map(|h| h.ver.as_deref()).collect();
+    let vf = &vfs[c.f];
+    let beam_evidence = model.live().filter(|d| d.vecs[c.f].is_some() && req.pass_filters(d) && !hit_vers.contains(d.ver.as_str())).any(|d| {
+      let sd = sim(vf, &c.q, d.vecs[c.f].as_ref().unwrap());
+      let others = model
+        .insts
+        .iter()
+        .filter(|i| i.seg == d.seg && i.ver != d.ver)
+        .filter_map(|i| i.vecs[c.f].as_ref())
+        .filter(|v| sim(vf, &c.q, v) >= sd - 4.0 * tol(sd, 1.0))
+        .count();
+      others < cs_eff.min(counts[d.seg])
+    });
     let rerun = |r: &Req| -> Option<bool> {
       match run(reader, &r.json(vfs)) {
         Ok(Ok(h)) => Some(judge_single(model, vfs, r, &h).problems.is_empty()),
@@ -1055,7 +1072,7 @@ mod imp {
     let fixed_by_cs = rerun(&r2);
     let detail = json!({"segment_vector_counts": counts, "m": vfs[c.f].m, "k_eff": k_eff, "candidate_size_eff": cs_eff, "ef_search_eff": ef_eff,
       "beam_narrower_than_a_segment": beam_narrow, "per_segment_topk_smaller_than_segment_with_ineligible_vectors": topk_postfilter,
-      "fixed_by_raising_ef_search": fixed_by_ef, "fixed_by_also_raising_candidate_size": fixed_by_cs, "after_compact": after_compact});
+      "fixed_by_raising_ef_search": fixed_by_ef, "fixed_by_also_raising_candidate_size": fixed_by_cs, "after_compact": after_compact, "missing_document_inside_a_correct_per_segment_topk": beam_evidence});
     let sig = if after_compact && fixed_by_cs == Some(false) {
       // does the field hold any vector at all after compaction?
       let probe = json!({"query": {"type":"vector","field": vfs[c.f].name, "vector": f32s(&c.q), "k": 1000, "candidate_size": 10000, "ef_search": 65536, "alpha": 0.0}, "limit": BIG, "return_stored": true});
@@ -1063,10 +1080,12 @@ mod imp {
         Ok(Ok(h)) if h.is_empty() && model.live().any(|i| i.vecs[c.f].is_some()) => "compact-drops-vectors".to_string(),
         _ => "unclassified:exact-nn-miss-after-compact".to_string(),
       }
+    } else if fixed_by_ef == Some(true) && beam_narrow && beam_evidence {
+      "exact-nn-miss:ef_search-below-segment-vector-count".to_string()
+    } else if (fixed_by_ef == Some(false) || !beam_evidence) && fixed_by_cs == Some(true) && topk_postfilter {
+      "exact-nn-miss:deleted-or-filtered-vectors-consume-per-segment-topk".to_string()
     } else if fixed_by_ef == Some(true) && beam_narrow {
       "exact-nn-miss:ef_search-below-segment-vector-count".to_string()
-    } else if fixed_by_ef == Some(false) && fixed_by_cs == Some(true) && topk_postfilter {
-      "exact-nn-miss:deleted-or-filtered-vectors-consume-per-segment-topk".to_string()
     } else {
       format!("unclassified:exact-nn-miss:beam={beam_narrow}:postfilter={topk_postfilter}:ef_fix={fixed_by_ef:?}:cs_fix={fixed_by_cs:?}")
     };
@@ -1149,7 +1168,7 @@ mod imp {
     let mut done: HashSet<String> = HashSet::new();
     for pr in v.problems.iter() {
       let (sig, extra) = if pr.kind == "exact-nn-miss" {
-        classify_exact_miss(reader, model, vfs, req, after_compact)
+        classify_exact_miss(reader, model, vfs, req, after_compact, &hits)
       } else {
         (signature(pr, req, vfs), Value::Null)
       };
